@@ -1,11 +1,14 @@
 (** Property C16 — position map is in-bounds and its two directions are mutually inverse.
     Theorems are about Compiler/SrcMap.v (SourceMap.Add, the two lookups; a Go map is the list of its insertions,
     the last insertion for a key wins).  The uniqueness hypothesis is decidable ([keys_unique]) and is evaluated by
-    the C16 check on the entries the (byte-exact) compiler model produces for every accepted file; bounds are
-    checked on the real tables entry by entry.
+    the C16 check on the entries the (byte-exact) compiler model produces for every accepted file.  Bounds: the
+    GENERATED side is proved for every tree (Proofs/BoundsProofs.v: every recorded target, and every position inside the
+    recorded fragment, is the end of a prefix of the generated text, hence on an existing line and within it); the
+    TEMPLATE side (lexer columns) is checked on the real tables entry by entry — partial.
     OBLIGATIONS: C16_round_trip_from_template C16_round_trip_from_generated C16_uniqueness_is_decidable
-      C16_fragment_is_a_shift C16_strictly_increasing_within_fragment C16_nonvacuous *)
-From GV Require Import Compiler.Compile Proofs.SrcMapProofs.
+      C16_fragment_is_a_shift C16_strictly_increasing_within_fragment C16_nonvacuous
+      C16_generated_positions_exist C16_position_in_text_is_in_bounds C16_target_entries_in_bounds *)
+From GV Require Import Compiler.Compile Proofs.EmitProofs Proofs.TargetProofs Proofs.SrcMapProofs Proofs.BoundsProofs.
 
 Theorem C16_round_trip_from_template : forall es l c tl tc,
   keys_unique es = true -> s2t es l c = Some (tl, tc) -> t2s es tl tc = Some (l, c).
@@ -35,6 +38,32 @@ Theorem C16_strictly_increasing_within_fragment : forall a e1 e2,
   (se_tl e1 = se_tl e2 /\ se_tc e2 - se_tc e1 = se_sc e2 - se_sc e1)%Z.
 Proof. exact add_monotone. Qed.
 Print Assumptions C16_strictly_increasing_within_fragment.
+
+(** in bounds, generated side — for every tree, with or without source map: the target position recorded for a fragment,
+    and every position reached by walking k characters into it (also across line breaks), is a position of the generated
+    text: the end of one of its prefixes ... *)
+Theorem C16_generated_positions_exist : forall sm root a k,
+  let w := emit_tree sm root in
+  In a (w_adds w) -> (k <= List.length (sa_text a))%nat ->
+  in_text (output_of w) (pos_after (sa_tline a, sa_tcol a) (firstn k (sa_text a))).
+Proof. exact targets_in_text. Qed.
+Print Assumptions C16_generated_positions_exist.
+
+(** ... and such a position has an existing line and a column within that line or at its end *)
+Theorem C16_position_in_text_is_in_bounds : forall out l c, in_text out (l, c) ->
+  exists n k : nat, l = (1 + Z.of_nat n)%Z /\ c = (1 + Z.of_nat k)%Z /\
+    (n <= count_byte 10 out)%nat /\ (k <= List.length (line_at n out))%nat.
+Proof. exact in_text_bounds. Qed.
+Print Assumptions C16_position_in_text_is_in_bounds.
+
+(** in the 0-based coordinates of the table, for a fragment on one line: entry k of the fragment *)
+Theorem C16_target_entries_in_bounds : forall sm root a k,
+  let w := emit_tree sm root in
+  In a (w_adds w) -> count_byte 10 (sa_text a) = 0%nat -> (k <= List.length (sa_text a))%nat ->
+  exists n c : nat, (sa_tline a - 1 = Z.of_nat n)%Z /\ (sa_tcol a - 1 + Z.of_nat k = Z.of_nat c)%Z /\
+    (n <= count_byte 10 (output_of w))%nat /\ (c <= List.length (line_at n (output_of w)))%nat.
+Proof. exact target_entries_in_bounds. Qed.
+Print Assumptions C16_target_entries_in_bounds.
 
 (** non-vacuity: the entries the compiler model produces for a file with a multi-line fragment and a format verb
     satisfy the uniqueness hypothesis *)
